@@ -380,8 +380,16 @@ impl Circle2 {
         let p2 = self.center + (v * a);
 
         if (d - r_sum).abs() < TOL || (d - r_diff).abs() < TOL {
-            // Circles are touching (externally or internally)
-            result.push(p2);
+            // Circles are touching (externally or internally): the contact point is one radius from
+            // this center along the line of centers, on the side the radical line lies on (the foot
+            // `p2` itself is only that point when `a` is exactly +-r, which is not the case for
+            // nearly concentric circles, where `a` is a quotient of two tiny numbers)
+            let r_signed = if a < 0.0 {
+                -self.ball.radius
+            } else {
+                self.ball.radius
+            };
+            result.push(self.center + (v * r_signed));
             return result;
         }
 
